@@ -386,9 +386,11 @@ func equalRunes(a, b []rune) bool {
 }
 
 // inProvedFragment re-implements the Lean predicate `inW` (lean/CaddyModel/C17/Fragment.lean):
-// plain words, non-CR white space, `… {⏎ … ⏎}` blocks. On this fragment token preservation
-// and idempotence are THEOREMS (Props.fmt_preserves_tokens_partial / fmt_idempotent_partial);
-// the model prints the same bit (field W:), so the two definitions are compared on every case.
+// plain words, non-CR white space, `… {⏎ … ⏎}` blocks, comments without backtick / backslash /
+// trailing blank (not right after a brace on the same line, not right before `{`). On this
+// fragment token preservation and idempotence are THEOREMS (Props.fmt_preserves_tokens_partial /
+// fmt_idempotent_partial); the model prints the same bit (field W:), so the two definitions are
+// compared on every case.
 func inProvedFragment(x string) bool {
 	r := []rune(x)
 	plain := func(c rune) bool {
@@ -399,40 +401,65 @@ func inProvedFragment(x string) bool {
 		kPlain
 		kOpen
 		kClose
+		kCmt
 	)
 	prev := kNone
 	i, n := 0, len(r)
+	var carry []rune // blanks at the end of a comment belong to the following separator
 	for {
-		nl := 0
-		sepLen := 0
+		sep := append([]rune{}, carry...)
+		carry = nil
 		for i < n && unicode.IsSpace(r[i]) {
-			if r[i] == '\r' {
+			sep = append(sep, r[i])
+			i++
+		}
+		nl := 0
+		for _, c := range sep {
+			if c == '\r' {
 				return false
 			}
-			if r[i] == '\n' {
+			if c == '\n' {
 				nl++
 			}
-			sepLen++
-			i++
 		}
 		if i >= n {
 			break
 		}
-		w0 := i
-		for i < n && !unicode.IsSpace(r[i]) {
-			i++
-		}
-		w := r[w0:i]
 		kind := kPlain
-		switch {
-		case len(w) == 1 && w[0] == '{':
-			kind = kOpen
-		case len(w) == 1 && w[0] == '}':
-			kind = kClose
-		default:
-			for _, c := range w {
-				if !plain(c) {
+		if r[i] == '#' {
+			j := i
+			for j < n && r[j] != '\n' {
+				j++
+			}
+			w := r[i:j]
+			k := len(w)
+			for k > 0 && unicode.IsSpace(w[k-1]) {
+				k--
+			}
+			carry = w[k:]
+			for _, c := range w[1:k] {
+				if c == '`' || c == '\\' {
 					return false
+				}
+			}
+			i = j
+			kind = kCmt
+		} else {
+			w0 := i
+			for i < n && !unicode.IsSpace(r[i]) {
+				i++
+			}
+			w := r[w0:i]
+			switch {
+			case len(w) == 1 && w[0] == '{':
+				kind = kOpen
+			case len(w) == 1 && w[0] == '}':
+				kind = kClose
+			default:
+				for _, c := range w {
+					if !plain(c) {
+						return false
+					}
 				}
 			}
 		}
@@ -445,13 +472,16 @@ func inProvedFragment(x string) bool {
 			if kind == kOpen && nl != 0 || kind == kClose && nl < 1 {
 				return false
 			}
+		case kCmt:
+			if len(sep) == 0 || sep[0] != '\n' || kind == kOpen {
+				return false
+			}
 		default: // after `{` or `}`
 			if nl < 1 || kind == kOpen {
 				return false
 			}
 		}
-		_ = sepLen
 		prev = kind
 	}
-	return prev == kPlain || prev == kClose
+	return prev == kPlain || prev == kClose || prev == kCmt
 }
